@@ -61,6 +61,7 @@ Ready(sn) ==
 
 Snap(s) == [status |-> st[s].status, ver |-> st[s].ver, fired |-> st[s].fired, cb |-> st[s].cb,
             up |-> [u \in Up |-> st[u].status],
+            nt |-> st[s].nt,
             dcb |-> IF "d" \in DOMAIN st THEN st["d"].cb ELSE {},
             sibs |-> [o \in DOMAIN st |-> st[o].status]]
 Go(w, pc) == wk' = [wk EXCEPT ![w].pc = pc]
@@ -71,16 +72,20 @@ SSRead(w) ==
   /\ LET sn == Snap("d") r == Ready(sn) IN
      wk' = [wk EXCEPT ![w] = [pc |-> IF MsgOf(w) \in done THEN "ack"
                                       ELSE IF r = "READY" /\ sn.status = "NOT_STARTED" THEN "claim"
+                                      \* zombie re-plan: claimed (RUNNING) but never planned - no task rows, no children
+                                      ELSE IF r = "READY" /\ sn.status = "RUNNING" /\ sn.nt = 0 THEN "claim"
                                       ELSE IF r = "RETRY" THEN "requeue"
                                       ELSE "postmark",
                               snap |-> sn, sib |-> <<>>]]
   /\ UNCHANGED <<st, q, done, claims, gh>>
 
-SSClaim(w) ==   \* UPDATE .. WHERE version = :v AND status = 'NOT_STARTED'; loser swallows ConcurrencyError
+SSClaim(w) ==   \* UPDATE .. WHERE version = :v AND status = :expected_phase (the status the claimer read: NOT_STARTED,
+                \* or RUNNING on the zombie path); the loser swallows ConcurrencyError
   /\ wk[w].pc = "claim"
-  /\ IF st["d"].ver = wk[w].snap.ver /\ st["d"].status = "NOT_STARTED"
-     THEN /\ st' = [st EXCEPT !["d"].status = "RUNNING", !["d"].ver = @ + 1, !["d"].tver = @ + 1]
-          /\ gh' = [gh EXCEPT !.nclaims = @ + 1, !.claimed = @ \cup {"d"}]
+  /\ IF st["d"].ver = wk[w].snap.ver /\ st["d"].status = wk[w].snap.status
+     THEN /\ st' = [st EXCEPT !["d"].status = "RUNNING", !["d"].ver = @ + 1,
+                               !["d"].tver = IF st["d"].nt > 0 THEN @ + 1 ELSE @]
+          /\ gh' = [gh EXCEPT !.nclaims = @ + (IF wk[w].snap.status = "NOT_STARTED" THEN 1 ELSE 0), !.claimed = @ \cup {"d"}]
           /\ Go(w, "plan")
      ELSE /\ UNCHANGED <<st, gh>> /\ Go(w, "postmark")
   /\ UNCHANGED <<q, done, claims>>
@@ -90,7 +95,10 @@ SSPlan(w) ==    \* plan commit: CAS on the version the claim produced; mark + St
   /\ wk[w].pc = "plan"
   /\ LET s == Target(w) IN
      IF st[s].ver = wk[w].snap.ver + 1
-     THEN /\ st' = [st EXCEPT ![s].ver = @ + 1, ![s].tver = @ + 1, ![s].fired = @ \/ (s = "d" /\ Tracked)]
+     THEN /\ st' = [st EXCEPT ![s].ver = @ + 1, ![s].fired = @ \/ (s = "d" /\ Tracked),
+                               \* tasks built by the stage's builder are inserted with the plan (fresh ids: new rows)
+                               ![s].tver = IF st[s].nt > 0 /\ wk[w].snap.nt > 0 THEN @ + 1 ELSE @,
+                               ![s].nt = IF wk[w].snap.nt = 0 THEN @ + 1 ELSE @]
           /\ done' = done \cup {MsgOf(w)}
           /\ q' = q \cup {NewMsg("StartTask", s)}
           /\ gh' = [gh EXCEPT !.plans = @ + 1, !.startTask = @ + 1]
